@@ -40,6 +40,7 @@ CONSTANTS KPublished, KLoader,
           Styles,      \* how the unknown key is spelled: "fresh" (Unknown itself), "case" (a declared key of the
                        \* same node with its first letter in upper case: `Passes`) - both are outside the language
           MaxPos,      \* a rule entry is tried at positions 0..MaxPos of a list of MaxPos+1 rules
+          NullRule,    \* also write the empty rule entry as `null` (`- ~`, a dangling `-`)
           MaxSteps,    \* longest walk (mapping nodes, root included); 2 = root and the entries of its lists, which is
                        \* what the quick tier uses to try an EMPTY rule at every position among valid rules
           Slice, NSlices \* quick tier: only every NSlices-th member of a rule union is entered (NSlices = 1: all)
@@ -108,8 +109,9 @@ VARIABLES file,    \* file kind
           leaf,    \* last key when it does not lead to a mapping node that is expanded
           inj,     \* indices of steps carrying the Unknown key
           style,   \* spelling of the injected key(s)
-          pos      \* position of the rule entry in its list
-vars == <<file, steps, leaf, inj, style, pos>>
+          pos,     \* position of the rule entry in its list
+          form     \* "map" | "null": how a rule entry without action is written ({} or null)
+vars == <<file, steps, leaf, inj, style, pos, form>>
 
 NoLeaf == [k |-> "", why |-> "", pub |-> "", ldr |-> ""]
 Deepest == steps[Len(steps)]
@@ -118,7 +120,7 @@ L == Node(KLoader, file, Deepest.ldr)
 
 Init == /\ file \in Files
         /\ steps = << [at |-> <<>>, pub |-> KPublished[file].root, ldr |-> KLoader[file].root] >>
-        /\ leaf = NoLeaf /\ inj = {} /\ style = "fresh" /\ pos = 0
+        /\ leaf = NoLeaf /\ inj = {} /\ style = "fresh" /\ pos = 0 /\ form = "map"
 
 RECURSIVE Unlist(_, _, _, _)
 Unlist(f, p, l, at) ==
@@ -129,7 +131,7 @@ Unlist(f, p, l, at) ==
 Visits(p, l) == Cardinality({i \in DOMAIN steps : steps[i].pub = p /\ steps[i].ldr = l})
 KeyIdx(n, k) == CHOOSE i \in DOMAIN n.keys : n.keys[i].k = k
 InSlice(k)   == (NSlices > 1 /\ <<file, Deepest.at>> \in RuleLists /\ k \in KeySet(L)) => KeyIdx(L, k) % NSlices = Slice
-Growing == leaf.k = "" /\ inj = {}
+Growing == leaf.k = "" /\ inj = {} /\ form = "map"
 
 (* extend the walk by one key of either grammar *)
 Descend(k) ==
@@ -137,7 +139,7 @@ Descend(k) ==
   /\ k \in KeySet(P) \cup KeySet(L)
   /\ InSlice(k)
   /\ Len(steps) < MaxSteps
-  /\ UNCHANGED <<file, inj, style>>
+  /\ UNCHANGED <<file, inj, style, form>>
   /\ IF k \notin KeySet(L)
      THEN leaf' = [k |-> k, why |-> "only-published", pub |-> Child(P, k), ldr |-> ""] /\ UNCHANGED <<steps, pos>>
      ELSE IF k \notin KeySet(P)
@@ -157,19 +159,22 @@ Descend(k) ==
 
 (* one or two unknown keys at mapping nodes of a valid document *)
 InjectUnknownKey(S, u) ==
-  /\ inj = {}
+  /\ inj = {} /\ form = "map"
   /\ S # {} /\ Cardinality(S) <= MaxInject
   /\ inj' = S /\ style' = u
-  /\ UNCHANGED <<file, steps, leaf, pos>>
+  /\ UNCHANGED <<file, steps, leaf, pos, form>>
 
 (* EmptyRule: the walk stopped at a rule entry - the entry `{}` has no action.   *)
 (* It is not a separate action: the state reached by descending into the rule   *)
-(* list IS that document.  (A `null` entry is no entry at all: yaml.v3 drops    *)
-(* null elements of a sequence, so it is not generated.)                        *)
+(* list IS that document.  NullForm writes the same entry as `null` (`- ~`, a    *)
+(* dangling `-`): an entry of the rule list that names no action either.        *)
 AtEmptyRule == leaf.k = "" /\ <<file, Deepest.at>> \in RuleLists
+NullForm == /\ NullRule /\ Growing /\ AtEmptyRule
+            /\ form' = "null" /\ UNCHANGED <<file, steps, leaf, inj, style, pos>>
 
 Next == \/ \E k \in KeySet(P) \cup KeySet(L) : Descend(k)
         \/ \E S \in SUBSET (DOMAIN steps), u \in Styles : InjectUnknownKey(S, u)
+        \/ NullForm
 Spec == Init /\ [][Next]_vars
 
 (* the document a state stands for, as the generator knows it (the renderer     *)
@@ -208,7 +213,7 @@ ValidIsAccepted ==
   (inj = {} /\ ~AtEmptyRule /\ leaf.why \notin {"only-published", "only-loader"})
      => (ShouldAccept(KLoader, Doc) /\ KeysOK(KPublished, Doc))
 
-Case == [file |-> file, steps |-> steps, leaf |-> leaf, inj |-> inj, style |-> style, pos |-> pos, npos |-> MaxPos + 1,
+Case == [file |-> file, steps |-> steps, leaf |-> leaf, inj |-> inj, style |-> style, pos |-> pos, npos |-> MaxPos + 1, form |-> form,
          expl |-> ShouldAccept(KLoader, Doc), expp |-> KeysOK(KPublished, Doc),
          emptyrule |-> AtEmptyRule]
 Emit == PrintT(<<"CASE", ToJson(Case)>>)
